@@ -214,4 +214,199 @@ theorem parseLoop_prefix (nz : Bool) (f : Form) (ds : List Doc) :
     · obtain ⟨k, hk⟩ := ih (acc ++ [opOf nz f d])
       exact ⟨k + 1, by simp [parseLoop, hd, hk]⟩
 
+/-! ### histories with other writers: the retrying executors compute `Spec.effectH` -/
+
+/-- What an executor returns when it computed the outcome `r` starting with log `lg`. -/
+def outH (lg : List Action) (r : Spec.OutH) : St × Writers × Res :=
+  (⟨r.cluster, lg ++ r.calls⟩, r.ws, resOf r.failed)
+
+theorem filterAttempts_refines (pf : PatchFn) (k : Key) (sub : Sub) (im ihe : Bool) (body : Option Body) :
+    ∀ (n : Nat) (first : Bool) (c : Cluster) (lg : List Action) (ws : Writers),
+      filterAttempts pf k sub im body n ⟨c, lg⟩ ws =
+        outH lg (Spec.effectH pf (.patch .jq k true sub im ihe body) n first c ws) := by
+  intro n
+  induction n with
+  | zero => intro first c lg ws; simp [filterAttempts, Spec.effectH, outH, resOf]
+  | succ n ih =>
+    intro first c lg ws
+    cases hg : aget c k with
+    | none =>
+      cases im <;> cases first <;>
+        simp [filterAttempts, Spec.effectH, Spec.locked, Spec.cycle, Spec.calls, Spec.effect, outH,
+          resOf, apiGet, hg, St.call]
+    | some o =>
+      cases hb : body.bind (fun b => pf .jq b o) with
+      | none =>
+        cases first <;>
+          simp [filterAttempts, Spec.effectH, Spec.locked, Spec.cycle, Spec.calls, Spec.effect, outH,
+            resOf, apiGet, hg, St.call, hb]
+      | some o' =>
+        cases he : objEqb o o' with
+        | true =>
+          cases first <;>
+            simp [filterAttempts, Spec.effectH, Spec.locked, Spec.cycle, Spec.calls, Spec.effect, outH,
+              resOf, apiGet, hg, St.call, hb, he]
+        | false =>
+          cases hw : popWriter ws k with
+          | none =>
+            cases first <;>
+              simp [filterAttempts, Spec.effectH, Spec.locked, Spec.cycle, Spec.calls, Spec.effect,
+                outH, resOf, apiGet, apiUpdateH, hg, St.call, hb, he, hw]
+          | some bw =>
+            obtain ⟨b, ws'⟩ := bw
+            have := ih false (aset c k (landed b o)) (lg ++ [⟨.get, k, 0⟩, ⟨.update, k, sub⟩]) ws'
+            cases first <;>
+              simp [filterAttempts, Spec.effectH, Spec.locked, Spec.cycle, Spec.calls,
+                outH, resOf, apiGet, apiUpdateH, hg, St.call, hb, he, hw, this]
+
+theorem updateAttempts_refines (pf : PatchFn) (k : Key) (o : Obj) (rep : NumRep) :
+    ∀ (n : Nat) (c : Cluster) (lg : List Action) (ws : Writers) (o0 : Obj), aget c k = some o0 →
+      updateAttempts k o n ⟨c, lg⟩ ws =
+        outH lg (Spec.effectH pf (.create false true (.good k true o rep)) n false c ws) := by
+  intro n
+  induction n with
+  | zero => intro c lg ws o0 _; simp [updateAttempts, Spec.effectH, outH, resOf]
+  | succ n ih =>
+    intro c lg ws o0 hg
+    cases hw : popWriter ws k with
+    | none =>
+      simp [updateAttempts, Spec.effectH, Spec.locked, Spec.cycle, Spec.calls, Spec.effect,
+        outH, resOf, apiGet, apiUpdateH, hg, St.call, hw]
+    | some bw =>
+      obtain ⟨b, ws'⟩ := bw
+      have := ih (aset c k (landed b o0)) (lg ++ [⟨.get, k, 0⟩, ⟨.update, k, 0⟩]) ws' (landed b o0)
+        (aget_aset_same _ _ _)
+      simp [updateAttempts, Spec.effectH, Spec.locked, Spec.cycle, Spec.calls,
+        outH, resOf, apiGet, apiUpdateH, hg, St.call, hw, this]
+
+/-- The first attempt of CreateOrUpdate on a present object = the `Create` call, then the cycle. -/
+theorem effectH_createOrUpdate_first (pf : PatchFn) (k : Key) (o o0 : Obj) (rep : NumRep) (n : Nat)
+    (c : Cluster) (ws : Writers) (hg : aget c k = some o0) :
+    Spec.effectH pf (.create false true (.good k true o rep)) (n + 1) true c ws =
+      let r := Spec.effectH pf (.create false true (.good k true o rep)) (n + 1) false c ws
+      ⟨r.cluster, r.ws, r.failed, ⟨.create, k, 0⟩ :: r.calls⟩ := by
+  cases hw : popWriter ws k with
+  | none => simp [Spec.effectH, Spec.locked, Spec.cycle, Spec.calls, Spec.effect, hg, hw]
+  | some bw =>
+    obtain ⟨b, ws'⟩ := bw
+    simp [Spec.effectH, Spec.locked, Spec.cycle, Spec.calls, hg, hw]
+
+/-- An operation whose documented run does not end with an `Update` does not meet the other writers. -/
+theorem effectH_unlocked (pf : PatchFn) (op : Op) (n : Nat) (c : Cluster) (ws : Writers)
+    (h : Spec.locked pf op c = none) :
+    Spec.effectH pf op (n + 1) true c ws =
+      ⟨(Spec.effect pf op c).1, ws, (Spec.effect pf op c).2, Spec.calls pf op c⟩ := by
+  simp [Spec.effectH, h]
+
+theorem execOneH_refines (pf : PatchFn) (op : Op) (st : St) (ws : Writers) (h : op.intTyped = false) :
+    execOneH pf op st ws = outH st.log (Spec.effectH pf op retrySteps true st.cluster ws) := by
+  obtain ⟨c, lg⟩ := st
+  have hrs : retrySteps = 3 + 1 := rfl
+  cases op with
+  | create ign upd src =>
+    cases src with
+    | bad => simp [execOneH, execCreateH, hrs, Spec.effectH, Spec.locked, Spec.calls, Spec.effect, outH, resOf]
+    | good k gvr o rep =>
+      cases gvr
+      · simp [execOneH, execCreateH, hrs, Spec.effectH, Spec.locked, Spec.calls, Spec.effect, outH, resOf]
+      · have hp : (rep = .int && o.any (fun p => p.2.isInt)) = false := by
+          cases rep
+          · simp
+          · simpa [Op.intTyped] using h
+        cases hg : aget c k with
+        | none =>
+          simp [execOneH, execCreateH, hrs, Spec.effectH, Spec.locked, Spec.calls, Spec.effect, outH,
+            resOf, hp, apiCreate, hg, St.call]
+        | some o0 =>
+          cases ign
+          · cases upd
+            · simp [execOneH, execCreateH, hrs, Spec.effectH, Spec.locked, Spec.calls, Spec.effect,
+                outH, resOf, hp, apiCreate, hg, St.call]
+            · have h1 := updateAttempts_refines pf k o rep (3 + 1) c (lg ++ [⟨.create, k, 0⟩]) ws o0 hg
+              have h2 := effectH_createOrUpdate_first pf k o o0 rep 3 c ws hg
+              simp only [execOneH, execCreateH, hrs, hp, apiCreate, hg, St.call] at *
+              simp [h1, h2, outH]
+          · cases upd <;>
+              simp [execOneH, execCreateH, hrs, Spec.effectH, Spec.locked, Spec.calls, Spec.effect,
+                outH, resOf, hp, apiCreate, hg, St.call]
+  | delete p k gvr sub =>
+    have hl : Spec.locked pf (.delete p k gvr sub) c = none := by
+      cases gvr <;> cases p <;> cases hg : aget c k <;> simp [Spec.locked, Spec.calls, hg]
+    have := execOne_refines pf (.delete p k gvr sub) ⟨c, lg⟩ (by simp [Op.intTyped])
+    simp only [execOne] at this
+    simp [execOneH, hrs, effectH_unlocked pf _ 3 c ws hl, this, outH]
+  | patch kind k gvr sub im ihe body =>
+    cases kind with
+    | jq =>
+      cases gvr
+      · simp [execOneH, execFilterH, hrs, Spec.effectH, Spec.locked, Spec.calls, Spec.effect, outH, resOf]
+      · simpa [execOneH, execFilterH] using
+          filterAttempts_refines pf k sub im ihe body retrySteps true c lg ws
+    | merge =>
+      have hl : Spec.locked pf (.patch .merge k gvr sub im ihe body) c = none := by
+        cases gvr <;> cases body <;> simp [Spec.locked, Spec.calls]
+      have := execOne_refines pf (.patch .merge k gvr sub im ihe body) ⟨c, lg⟩ (by simp [Op.intTyped])
+      simp only [execOne, reduceCtorEq, ↓reduceIte] at this
+      simp [execOneH, hrs, effectH_unlocked pf _ 3 c ws hl, outH, this]
+    | json =>
+      have hl : Spec.locked pf (.patch .json k gvr sub im ihe body) c = none := by
+        cases gvr <;> cases body <;> simp [Spec.locked, Spec.calls]
+      have := execOne_refines pf (.patch .json k gvr sub im ihe body) ⟨c, lg⟩ (by simp [Op.intTyped])
+      simp only [execOne, reduceCtorEq, ↓reduceIte] at this
+      simp [execOneH, hrs, effectH_unlocked pf _ 3 c ws hl, outH, this]
+
+theorem executeH_refines (pf : PatchFn) (ops : List Op) :
+    ∀ (st : St) (ws : Writers) (n : Nat), (∀ op ∈ ops, op.intTyped = false) →
+      executeH pf ops st ws n =
+        ⟨⟨(Spec.runH pf ops ⟨st.cluster, ws, st.log, n⟩).cluster, (Spec.runH pf ops ⟨st.cluster, ws, st.log, n⟩).calls⟩,
+          (Spec.runH pf ops ⟨st.cluster, ws, st.log, n⟩).ws,
+          (Spec.runH pf ops ⟨st.cluster, ws, st.log, n⟩).nfailed, false⟩ := by
+  induction ops with
+  | nil => intro st ws n _; simp [executeH, Spec.runH]
+  | cons op rest ih =>
+    intro st ws n h
+    have h1 : op.intTyped = false := h op (by simp)
+    have h2 : ∀ o ∈ rest, o.intTyped = false := fun o ho => h o (by simp [ho])
+    have hr := execOneH_refines pf op st ws h1
+    cases hf : (Spec.effectH pf op retrySteps true st.cluster ws).failed
+    · simp [hf, resOf, outH] at hr
+      simp [executeH, hr, Spec.runH, hf, ih _ _ _ h2]
+    · simp [hf, resOf, outH] at hr
+      simp [executeH, hr, Spec.runH, hf, ih _ _ _ h2]
+
+theorem effectH_withRep (pf : PatchFn) (op : Op) (r : NumRep) :
+    ∀ (n : Nat) (first : Bool) (c : Cluster) (ws : Writers),
+      Spec.effectH pf (op.withRep r) n first c ws = Spec.effectH pf op n first c ws := by
+  intro n
+  induction n with
+  | zero => intro first c ws; simp [Spec.effectH]
+  | succ n ih =>
+    intro first c ws
+    simp [Spec.effectH, Spec.locked, Spec.cycle, effect_withRep, calls_withRep, ih]
+
+theorem runH_withRep (pf : PatchFn) (r : NumRep) (ops : List Op) :
+    ∀ o, Spec.runH pf (ops.map (Op.withRep r)) o = Spec.runH pf ops o := by
+  induction ops with
+  | nil => intro o; rfl
+  | cons op rest ih => intro o; simp [Spec.runH, effectH_withRep, ih]
+
+/-- Without other writers the history-aware Spec is the plain one. -/
+theorem effectH_no_writers (pf : PatchFn) (op : Op) (n : Nat) (c : Cluster) :
+    Spec.effectH pf op (n + 1) true c [] =
+      ⟨(Spec.effect pf op c).1, [], (Spec.effect pf op c).2, Spec.calls pf op c⟩ := by
+  cases hl : Spec.locked pf op c with
+  | none => simp [Spec.effectH, hl]
+  | some k => cases hg : aget c k <;> simp [Spec.effectH, hl, hg, popWriter]
+
+theorem runH_no_writers (pf : PatchFn) (ops : List Op) :
+    ∀ (c : Cluster) (lg : List Action) (n : Nat),
+      Spec.runH pf ops ⟨c, [], lg, n⟩ =
+        ⟨(Spec.run pf ops ⟨c, lg, n⟩).cluster, [], (Spec.run pf ops ⟨c, lg, n⟩).calls, (Spec.run pf ops ⟨c, lg, n⟩).nfailed⟩ := by
+  induction ops with
+  | nil => intro c lg n; simp [Spec.runH, Spec.run]
+  | cons op rest ih =>
+    intro c lg n
+    have : retrySteps = 3 + 1 := rfl
+    simp [Spec.runH, Spec.run, this, effectH_no_writers, ih]
+
 end ShellOp.Patch
